@@ -48,7 +48,7 @@ func c19Run(ctx *core.Ctx) {
 	if ctx.Thorough() {
 		nFuzz, shortLen = 5000000, 5
 	}
-	ctx.Rule = fmt.Sprintf("limits {32,64,2000,5000,8192} x total line lengths {limit-2..limit+3, 3*limit} x position {first line, later line, MAIL line, inside an AUTH exchange, after DATA, after a non-LAST BDAT chunk, after a refused BDAT} x {one segment, two segments cut in the middle / after the first octet / right before CRLF / right before LF} x Server.Debug {unset, set}; endless lines fed in 512-octet segments; all strings of length <=%d over {NUL,CR,LF,SP,'A','a',':','<',0xFF} as command lines in 7 session states (fresh, greeted, greeting refused by the backend, greeting of the wrong flavour, MAIL, RCPT, mid-BDAT); %d seeded binary lines / token soups (a quarter of them MAIL/RCPT lines whose path is a soup of path fragments, another quarter MAIL/RCPT lines with a valid path and a soup of parameter fragments: truncated xtext hexchars, utf-8-addr escapes, dates, lists; every extension enabled); mixes of valid commands with 3..6 invalid ones. Oracles: ErrorLog tap (recovered panics), consumption counter of the transport, reply parser, backend log. Non-trivial: every case (hostile by construction); distinct by case.", shortLen, nFuzz)
+	ctx.Rule = fmt.Sprintf("limits {32,64,2000,5000,8192} x total line lengths {limit-2..limit+3, 3*limit} x position {first line, later line, MAIL line, inside an AUTH exchange, after DATA, after a non-LAST BDAT chunk, after a refused BDAT} x {one segment, two segments cut in the middle / after the first octet / right before CRLF / right before LF} x Server.Debug {unset, set}; endless lines fed in 512-octet segments; all strings of length <=%d over {NUL,CR,LF,SP,'A','a',':','<',0xFF} as command lines in 7 session states (fresh, greeted, greeting refused by the backend, greeting of the wrong flavour, MAIL, RCPT, mid-BDAT); %d seeded binary lines / token soups (a quarter of them MAIL/RCPT lines whose path is a soup of path fragments, another quarter MAIL/RCPT lines with a valid path and a soup of parameter fragments: truncated xtext hexchars, utf-8-addr escapes, dates, lists; every extension enabled); mixes of valid commands (incl. transaction ends and a STARTTLS upgrade) with 3..6 invalid ones. Oracles: ErrorLog tap (recovered panics), consumption counter of the transport, reply parser, backend log. Non-trivial: every case (hostile by construction); distinct by case.", shortLen, nFuzz)
 	ctx.Assumptions = []string{"lines of exactly limit+1 octets are not judged", "short lines that share a segment with an over-long one are not judged", "an unrecovered panic kills the child process and is reported by the parent as <id>:process-crash"}
 	core.RunCases(ctx, func(emit func(c19Case)) {
 		for _, limit := range []int{32, 64, 2000, 5000, 8192} {
@@ -83,7 +83,7 @@ func c19Run(ctx *core.Ctx) {
 			emit(c19Case{Kind: "fuzz", Seed: ctx.Seed<<32 | uint64(i), State: c19States[i%len(c19States)]})
 		}
 		for nbad := 3; nbad <= 6; nbad++ {
-			for _, mix := range []string{"consecutive", "interleaved", "afterenvelope", "rset-between", "hello-between", "message-between"} {
+			for _, mix := range []string{"consecutive", "interleaved", "afterenvelope", "rset-between", "hello-between", "message-between", "starttls-between"} {
 				for _, bad := range []string{"XXXX", "AB", "ABCDE", "", "FOOBAR x"} {
 					for _, mode := range []srvMode{modeSMTP, modeLMTPRcpt} {
 						emit(c19Case{Kind: "flood", NBad: nbad, Mix: mix, Line: []byte(bad), LineQ: bad, Mode: mode})
@@ -530,6 +530,13 @@ func c19Flood(ctx *core.Ctx, c c19Case) {
 				script = append(script, "MAIL FROM:<s@x.test>", "RCPT TO:<r@x.test>", "BDAT 2 LAST\r\nab")
 			}
 		}
+	case "starttls-between":
+		// errors on both sides of a STARTTLS upgrade: the count belongs to the connection
+		rig.Srv.TLSConfig = wire.ServerTLS()
+		script = append(script, c.Mode.hello(), bad, bad, "STARTTLS", c.Mode.hello())
+		for i := 2; i < c.NBad; i++ {
+			script = append(script, bad)
+		}
 	case "afterenvelope":
 		script = append(script, c.Mode.hello(), "MAIL FROM:<s@x.test>", bad, "RCPT TO:<r@x.test>")
 		for i := 1; i < c.NBad; i++ {
@@ -556,6 +563,13 @@ func c19Flood(ctx *core.Ctx, c c19Case) {
 		var rs []wire.Reply
 		rs, err = p.ReadUntilStall()
 		all = append(all, rs...)
+		if s == "STARTTLS" && err == nil && len(rs) == 1 && rs[0].Code == 220 {
+			if terr := p.StartTLSClient(); terr != nil {
+				err = terr
+			} else {
+				p.Raw.WaitPeerIdle(wire.Watchdog)
+			}
+		}
 		if s == bad {
 			nbad++
 		}
